@@ -53,7 +53,9 @@ func (c *Completer) Init() {
 }
 
 func setHook(p *slip.Package, key string) {
-	if p == &Pkg ||
+	// The hook is also called with the package qualified name. Only the plain
+	// name identifies a variable to save in the config file.
+	if (p == &Pkg && !strings.ContainsRune(key, ':')) ||
 		strings.HasPrefix(key, "*print-") ||
 		key == "*bag-time-format*" ||
 		key == "*bag-time-wrap*" {
